@@ -549,7 +549,10 @@ class DestHandler:
             self._handle_fd_or_eof_pdu(pdu_holder)
         if self.states.step == TransactionStep.WAITING_FOR_METADATA:
             self._handle_waiting_for_missing_metadata(pdu_holder)
-            self._deferred_lost_segment_handling()
+            if self.states.step == TransactionStep.WAITING_FOR_METADATA:
+                # Still waiting. If the metadata arrived, the step changed and the steps below
+                # take over (e.g. a fault declared for the metadata completes the transfer).
+                self._deferred_lost_segment_handling()
         if self.states.step == TransactionStep.RECV_FILE_DATA_WITH_CHECK_LIMIT_HANDLING:
             self._check_limit_handling()
         if self.states.step == TransactionStep.WAITING_FOR_MISSING_DATA:
